@@ -66,7 +66,7 @@ Definition mk_iface (ovf : bool) (o : oracles) : iface :=
 Inductive sval := SV (v : value) | SVar (name : text) | SBad.
 
 Inductive hostop :=
-| HNew | HCont | HContMax | HContAsync (sched : list N) | HChoose (i : Z)
+| HNew | HCont | HContMax | HContAsync (sched : list N) | HContSliced (sched : list N) | HFinish | HChoose (i : Z)
 | HPath (p : text) (reset : bool) (args : option (list sval))
 | HSwitch (f : text) | HSwitchDefault | HRemoveFlow (f : text)
 | HObserve (id var : text) | HUnobserve (id : text) (var : option text)
@@ -210,6 +210,28 @@ Definition run_op_world (op : hostop) (seed : Z) (w : world) : text * world * bo
           (show_err k ++ T " active=" ++ show_bool01 (w_async w'), set_pause_schedule [] w', false)
       | (OPanic _, w') => (T "panic", w', true)
       end
+  | HFinish =>
+      if w_async w then fin (api_cont I sw w) (fun t => T "ok(" ++ quote_text t ++ T ")")
+      else fin (get_current_text w) (fun t => T "ok(" ++ quote_text t ++ T ")")
+  | HContSliced sched =>
+      (fix slices (fuel : nat) (w : world) : text * world * bool :=
+         match fuel with
+         | O => (T "err(InvalidState)", w, false)
+         | S f =>
+             match continue_async I sw true w with
+             | (OOk _, w') =>
+                 if w_async w' then slices f w'
+                 else
+                   let w2 := set_pause_schedule [] w' in
+                   match get_current_text w2 with
+                   | (OOk t, w3) => (T "ok(" ++ quote_text t ++ T ")", w3 <| w_lines ::= N.succ |>, false)
+                   | (OErr k _, w3) => (show_err k, w3, false)
+                   | (OPanic _, w3) => (T "panic", w3, true)
+                   end
+             | (OErr k _, w') => (show_err k, set_pause_schedule [] w', false)
+             | (OPanic _, w') => (T "panic", w', true)
+             end
+         end) (S (N.to_nat (w_fuel w))) (set_pause_schedule sched w)
   | HChoose i =>
       if (i <? 0)%Z then (T "err(BadArgument)", w, false)
       else unitop (choose_choice_index I sw (Z.to_nat i))
@@ -222,7 +244,7 @@ Definition run_op_world (op : hostop) (seed : Z) (w : world) : text * world * bo
                   end
       end
   | HSwitch f => unitop (switch_flow f)
-  | HSwitchDefault => unitop switch_to_default_flow
+  | HSwitchDefault => unitop (switch_to_default_flow sw)
   | HRemoveFlow f => unitop (remove_flow sw f)
   | HObserve id var => unitop (observe_variable var id)
   | HUnobserve id var => unitop (remove_variable_observer sw id var)
@@ -232,7 +254,7 @@ Definition run_op_world (op : hostop) (seed : Z) (w : world) : text * world * bo
   | HHandler => unitop (modify (fun w => w <| w_handler := true |>))
   | HSetVar x sv =>
       match resolve_sval w sv with
-      | Some v => unitop (set_variable I x v)
+      | Some v => unitop (set_variable I sw x v)
       | None => (T "badvalue", w, false)
       end
   | HGetVar x =>
